@@ -310,7 +310,7 @@ class tm:
         Args:
             TAA: New TAA to be set
         """
-        self.TAA = TAA
+        self.TAA = np.array(TAA, dtype=float)
         self.TAAtoTM()
         #self.AngleMod()
     #Regular Transpose
